@@ -5,7 +5,8 @@ ID = "C10"
 LEVEL = "proof"
 MODULE = "NrDaemon.Props.C10"
 PREFIX = ("C10", "C01", "C04", "C08", "harness")
-RULE = ("engine proc with op `mut`: a valid Transaction message built from a generated transaction is mutated by one of 8 structured mutations (bit flips, truncation, 4-byte word overwrite with extreme values, vtable entry overwrite, splice, root-offset edit, byte noise, extension) chosen by a per-op seed, and sent through the real serve()/HandleMessage/processBinary/IncomingTxnData/AggregateInto path, addressed to a live (victim) run id or to an unknown id, interleaved with well-formed traffic and harvests of the other applications whose requests continue to be compared exactly; well-formed messages for healthy runs additionally carry damaged (shorter than 4 bytes) log events, which must be skipped without harming the rest of the payload. Non-trivial = a history with at least one mutation that reached the processor goroutine; distinct = distinct op lists.")
+RULE = ("engine proc with op `mut`: a valid Transaction message built from a generated transaction is mutated by one of 8 structured mutations (bit flips, truncation, 4-byte word overwrite with extreme values, vtable entry overwrite, splice, root-offset edit, byte noise, extension) chosen by a per-op seed, and sent through the real serve()/HandleMessage/processBinary/IncomingTxnData/AggregateInto path, addressed to a live (victim) run id or to an unknown id, interleaved with well-formed traffic and harvests of the other applications whose requests continue to be compared exactly; well-formed messages for healthy runs additionally carry damaged (shorter than 4 bytes) log events, which must be skipped without harming the rest of the payload. Non-trivial = a history with at least one mutation that reached the processor goroutine; distinct = distinct op lists."
+        " Also: application descriptions whose strings sit exactly at / around the 255-byte limit in every field (apphostile), hostile package lists for the victim run followed by its harvest, queries of agents as App messages over a connection followed by a rejected message, and span batches announcing no spans against the span queue (engine spanq).")
 ASSUMPTIONS = ['run ids issued by the collector are distinct; one outstanding connect attempt per application', 'daemon-generated metrics other than the Seen/Sent/Dropped rows are filtered out of the comparison', 'a harvest trigger for a run that has already been shut down is not generated', 'sha256 is treated as injective on the policy-name lists compared']
 EXPLANATION = "L2 processor machine in Lean; every request the real processor makes is compared with the model's; the exactly-once ledger Spec runs on the implementation's requests."
 TECHNIQUE = "Lean 4 theorems about containment in the L2 machine (whatever a corrupt message does to its own run, every other run, every application and the request stream of other runs are untouched; the listener closes only the offending connection) + structured-mutation correspondence through the real serve() -> CommandsHandler -> Processor path"
